@@ -141,3 +141,82 @@ func loadTimeAtomRule(w *World, r *Report, rule string) {
 	}
 	r.floor(rule, "load-time atoms in the embedded headers", n, 2)
 }
+
+// updateFnLint: the update functions the library's own lisp code passes to swap! are the library's: they call
+// builtins and header functions only, never a function value the caller supplied (a parameter of an enclosing
+// fn). Such a function may reach the very atom being swapped - (def fib (memoize fib)) - and then every attempt
+// finds the version changed: the compare-and-set never succeeds and swap! spins forever.
+func updateFnLint(w *World, r *Report, rule string) {
+	r.rule(rule, "in the embedded lisp headers, a function literal passed to swap! as the update function calls no function value received as a parameter of an enclosing fn (neither in head position nor through apply/map): caller-supplied code never runs inside the library's own compare-and-set loop, where an update of the same atom would make the swap retry forever")
+	files, err := w.lispFiles()
+	if err != nil {
+		r.undecided(rule, nil, "lisp headers", token.NoPos, err.Error())
+		return
+	}
+	n := 0
+	paramsOf := func(s *sx) []string {
+		var out []string
+		if len(s.items) > 1 && (s.items[1].kind == "vector" || s.items[1].kind == "list") {
+			for _, p := range s.items[1].items {
+				if p.kind == "sym" && p.text != "&" {
+					out = append(out, p.text)
+				}
+			}
+		}
+		return out
+	}
+	var visit func(f *LispFileT, s *sx, outer map[string]bool)
+	visit = func(f *LispFileT, s *sx, outer map[string]bool) {
+		if s == nil {
+			return
+		}
+		h := s.head()
+		if h == "swap!" && len(s.items) >= 3 && s.items[2].head() == "fn" {
+			n++
+			upd := s.items[2]
+			own := map[string]bool{}
+			for _, p := range paramsOf(upd) {
+				own[p] = true
+			}
+			bad := ""
+			for _, b := range upd.items[2:] {
+				b.walk(func(x *sx) {
+					if x.kind != "list" || len(x.items) == 0 {
+						return
+					}
+					hd := x.items[0]
+					if hd.kind == "sym" && outer[hd.text] && !own[hd.text] {
+						bad = "(" + hd.text + " …)"
+					}
+					if hd.kind == "sym" && (hd.text == "apply" || hd.text == "map") && len(x.items) > 1 && x.items[1].kind == "sym" && outer[x.items[1].text] && !own[x.items[1].text] {
+						bad = "(" + hd.text + " " + x.items[1].text + " …)"
+					}
+				})
+			}
+			status, detail := "discharged", "the update function calls builtins and header functions only"
+			if bad != "" {
+				status, detail = "violated", "the update function calls "+bad+", a function supplied by the caller: if it reaches this atom (a memoized function that calls its own memoized name) every compare-and-set fails and the swap never ends"
+			}
+			r.addRaw(rule, f.path, "update function literal of (swap! "+s.items[1].text+" …)", fmt.Sprintf("%s:%d", f.path, s.line), status, detail)
+		}
+		next := outer
+		if h == "fn" {
+			next = map[string]bool{}
+			for k := range outer {
+				next[k] = true
+			}
+			for _, p := range paramsOf(s) {
+				next[p] = true
+			}
+		}
+		for _, it := range s.items {
+			visit(f, it, next)
+		}
+	}
+	for _, f := range files {
+		for _, form := range f.forms {
+			visit(f, form, map[string]bool{})
+		}
+	}
+	r.addRaw(rule, "-", "update function literals passed to swap! in the embedded headers", "-", "info", fmt.Sprintf("%d examined", n))
+}
